@@ -107,7 +107,15 @@ Bodies == { <<Sec(119, Str(<<104,105>>))>>, <<Sec(119, Null)>>, <<Sec(119, L(<<U
 OptPre == { s \in SUBSET {1, 2, 3, 4, 5} : Deep \/ Cardinality(s) \in {0, 1, 5} \/ s = {1, 4} \/ s = {2, 3, 5} }
 PreSeq(s) == (IF 1 \in s THEN <<Hdr>> ELSE <<>>) \o (IF 2 \in s THEN <<DA>> ELSE <<>>) \o (IF 3 \in s THEN <<MA>> ELSE <<>>)
              \o (IF 4 \in s THEN <<Props>> ELSE <<>>) \o (IF 5 \in s THEN <<AP>> ELSE <<>>)
-Messages == { PreSeq(s) \o b \o ft : s \in OptPre, b \in Bodies, ft \in {<<>>, <<Foot>>} }
+\* sections that are present but empty (an empty map / list is not the same message as an absent section)
+EmptySec(i) == CASE i = 1 -> Sec(112, L(<<>>)) [] i = 2 -> Sec(113, M(<<>>)) [] i = 3 -> Sec(114, M(<<>>)) [] i = 4 -> Sec(115, L(<<>>)) [] i = 5 -> Sec(116, M(<<>>)) [] OTHER -> Sec(120, M(<<>>))
+FullSec(i) == CASE i = 1 -> Hdr [] i = 2 -> DA [] i = 3 -> MA [] i = 4 -> Props [] i = 5 -> AP [] OTHER -> Foot
+RECURSIVE SecSeq(_, _, _)
+SecSeq(i, s, e) == IF i > 5 THEN <<>> ELSE (IF i \in e THEN <<EmptySec(i)>> ELSE IF i \in s THEN <<FullSec(i)>> ELSE <<>>) \o SecSeq(i + 1, s, e)
+EmptyChoices == { e \in SUBSET {1, 2, 3, 4, 5, 6} : Cardinality(e) = 1 \/ e = {2, 3, 5, 6} \/ (Deep /\ Cardinality(e) <= 3) }
+MessagesE == { SecSeq(1, s, e) \o b \o (IF 6 \in e THEN <<EmptySec(6)>> ELSE ft) : s \in {{}, {1, 2, 3, 4, 5}}, e \in EmptyChoices,
+               b \in {<<Sec(119, Str(<<104,105>>))>>, <<Sec(117, Bin(<<1,2,3>>))>>}, ft \in {<<>>, <<Foot>>} }
+Messages == { PreSeq(s) \o b \o ft : s \in OptPre, b \in Bodies, ft \in {<<>>, <<Foot>>} } \cup MessagesE
 
 -----------------------------------------------------------------------------
 VARIABLE z
